@@ -58,6 +58,10 @@ CHECKS = {
  'C15': dict(engine='Texts', design='6 (C15)', technique='TLA+ spec Texts.tla defines texts as sequences of character classes with the emission rule, the whitespace normalisation and equality up to whitespace; TLC enumerates clause x genTexts x filter x text; rendered modules compiled by the real MibCompiler with both generators (pysnmp module executed by the real MibBuilder); observed strings tokenised back into classes and validated by TLC (TextsTrace)',
              text='OnlyWhenRequested, JsonExact (exact with the identity filter, whitespace-normalised with the default one), PysnmpEqual (equal up to whitespace after executing the module), AlwaysCompilable, for every text-bearing clause (DESCRIPTION, REFERENCE, ORGANIZATION, CONTACT-INFO, UNITS, DISPLAY-HINT, PRODUCT-RELEASE, revision description), genTexts on/off, both filters, all texts of <=2 (quick) / <=3 (thorough) classes out of 16 (words, blanks, TAB, LF, CRLF, CR, backslash, apostrophes, non-ASCII, 90-character word, braces, percent, hash, empty).',
              note='Trusted: TLC; the class representatives and the tokeniser in checks/texts.py. Scope: texts of at most 3 classes; quick tier replays a seeded sample of 3500 scenarios through JSON and 400 through pysnmp. A line break inserted by word wrapping inside a word longer than the line counts as whitespace (DESIGN reading). Revision descriptions are not part of pysnmp output.'),
+
+ 'C16': dict(engine='V1V2', design='6 (C16)', technique='TLA+ spec V1V2.tla enumerates (TLC) abstract SMIv1 modules and defines the transliteration rules; each scenario is rendered as SMIv1 and as SMIv2 text, both compiled by the real MibCompiler with both generators; the two projections and one row per entry of the import rewrite domain are validated by TLC (V1V2Trace); the oracle for new import homes is the export list of the SMIv2 modules shipped with pysnmp',
+             text='BothCompile, SameObjects (symbols, OIDs, classes, node types, references; status through the v1->v2 map), TypeMap (pysnmp class of every SMIv1 type), AccessIsMaxAccess, TrapIsNotification (enterprise.0.n incl. enterprises ending in 0), ImportsInPair, ImportsRewritten for all 248 rewrite rows (127 verifiable against pysnmp).',
+             note='Trusted: TLC; renderer; the pysnmp export lists as reference for SMIv2 homes (rows whose new module pysnmp does not ship are counted, not judged). Scope: 1-2 objects plus optional table and trap per module; quick tier replays a seeded sample of 700 pairs (160 through pysnmp). INDEX given as a bare type has no SMIv2 counterpart and is a known finding.'),
 }
 PENDING = 'check under construction in this round; will be claimed when its TLA+ spec, replay and trace validation exist'
 
@@ -78,6 +82,7 @@ m = {
              {'name': 'Refs', 'path': 'specs/Refs.tla', 'serves_properties': ['C06'], 'kind_free_text': 'TLA+ enumeration of structural references (tables, lists, compliance) with expected targets; RefsTrace.tla'},
              {'name': 'Types', 'path': 'specs/Types.tla', 'serves_properties': ['C05'], 'kind_free_text': 'TLA+ enumeration of syntaxes, constraints and defaults with BaseOf / ExpDefval ground truth; TypesTrace.tla'},
              {'name': 'Texts', 'path': 'specs/Texts.tla', 'serves_properties': ['C15'], 'kind_free_text': 'TLA+ model of texts as character-class sequences with emission rule and whitespace normalisation; TextsTrace.tla'},
+             {'name': 'V1V2', 'path': 'specs/V1V2.tla', 'serves_properties': ['C16'], 'kind_free_text': 'TLA+ model of SMIv1 modules and their SMIv2 transliteration; V1V2Trace.tla'},
              {'name': 'OidIndex', 'path': 'specs/OidIndex.tla', 'serves_properties': ['C18'], 'kind_free_text': 'TLA+ model of the persistent OID->module index and its merge/compaction; OidIndexTrace.tla'}],
  'checks': [], 'not_applicable': [],
  'notes': 'All checks: cwd=/verif, ./check <id> --tier quick|thorough; exit 0 pass, 1 violation (VIOLATION line), 2 machinery failure. known_findings.json lists open findings and fixed: records.',
